@@ -119,7 +119,7 @@ def run(ck):
         cfg = vlib.cfg_with(sw, "ByteBufferImpl_sim.cfg", c)
         nw = 1 if quick else 4      # one weighted random action per step (SimStep); the seed fixes the histories per worker count
         r = vlib.tlc(sw, "ByteBufferImpl", cfg, env=HEAP, workers=nw, simulate=num, depth=hist + 2,
-                     seed=ck.seed * 1000 + k, timeout=1800)
+                     seed=ck.seed * 1000 + k, timeout=2700)
         if r.violated or r.error:
             raise vlib.Inconclusive("ByteBufferImpl simulation %s: %s\n%s" % (scale, r.violated or r.error, r.tail()))
         ck.add_tlc("ByteBufferImpl random simulation", r, c, exhaustive=False)
@@ -139,8 +139,8 @@ def run(ck):
     else:
         jobs = [(strict, ("k1zero", 7)), (strict, ("k200new", 6)), (strict, ("k1new", 5)), (strict, ("k1zero", 4, True)),
                 (cover, ("k1zero", 5)), (cover, ("k200new", 4)), (cover, ("k1new", 3, False)),
-                (sim, (1, "k1zero", 24, 12000, 80)), (sim, (2, "k200new", 14, 8000, 80)),
-                (sim, (3, "k1new", 24, 4000, 80)), (sim, (4, "k1zero", 10, 6000, 30))]
+                (sim, (1, "k1zero", 24, 6000, 80)), (sim, (2, "k200new", 14, 4000, 80)),
+                (sim, (3, "k1new", 24, 2000, 80)), (sim, (4, "k1zero", 10, 3000, 30))]
     with ThreadPoolExecutor(max_workers=3 if quick else 4) as ex:
         futs = [ex.submit(f, *a) for f, a in jobs]
         for f in futs:
